@@ -10,7 +10,7 @@
      resolve_cons, resolve_line, legal_in_moves
      position_startpos, position_fen, position_rejects_format, position_rejects_move *)
 From WV Require Import Types Bits Attacks Board MoveEnc MoveGen Rules Abs Wf Encode Text Notation Uci.
-From WV Require Import PosEq ApplyProofs LegalPosProofs PlayProofs GenLegal GenCount GenAttrs GenResolve.
+From WV Require Import BoardProofs PosEq ApplyProofs LegalPosProofs PlayProofs GenLegal GenCount GenAttrs GenResolve.
 From Coq Require Import Lia ZifyBool ZifyN ZifyNat List.
 Import ListNotations.
 Import WV.Bits.
@@ -885,3 +885,124 @@ Proof.
 Qed.
 
 End Position.
+
+(* ====================================================================== *)
+(* coordinate texts: what the engine prints (Lan) is what the position command reads back *)
+(* ====================================================================== *)
+
+Definition coord_text (mv : move) : text :=
+  square_text (mv_from mv) ++ square_text (mv_to mv)
+  ++ match mv_promo mv with Some p => [to_lower (piece_letter p)] | None => [] end.
+
+Lemma lan_write_coord : forall m, lan_write m = coord_text (absm m).
+Proof. intros m. reflexivity. Qed.
+
+Definition opt_eqb {A : Type} (e : A -> A -> bool) (a b : option A) : bool :=
+  match a, b with Some x, Some y => e x y | None, None => true | _, _ => false end.
+
+Lemma opt_eqb_eq : forall (A : Type) (e : A -> A -> bool), (forall x y, e x y = true -> x = y) ->
+  forall a b, opt_eqb e a b = true -> a = b.
+Proof.
+  intros A e He [x|] [y|] H; cbn [opt_eqb] in H; try discriminate H; [|reflexivity].
+  rewrite (He x y H). reflexivity.
+Qed.
+
+Definition mquery_eqb (a b : mquery) : bool :=
+  opt_eqb piece_eqb (q_piece a) (q_piece b) && opt_eqb N.eqb (q_orank a) (q_orank b) &&
+  opt_eqb N.eqb (q_ofile a) (q_ofile b) && opt_eqb N.eqb (q_drank a) (q_drank b) &&
+  opt_eqb N.eqb (q_dfile a) (q_dfile b) && opt_eqb piece_eqb (q_promotion a) (q_promotion b) &&
+  opt_eqb Bool.eqb (q_castle a) (q_castle b) && opt_eqb Bool.eqb (q_capture a) (q_capture b).
+
+Lemma mquery_eqb_eq : forall a b, mquery_eqb a b = true -> a = b.
+Proof.
+  intros [a1 a2 a3 a4 a5 a6 a7 a8] [b1 b2 b3 b4 b5 b6 b7 b8] H. unfold mquery_eqb in H.
+  cbn [q_piece q_orank q_ofile q_drank q_dfile q_promotion q_castle q_capture] in H.
+  rewrite !andb_true_iff in H. destruct H as [[[[[[[H1 H2] H3] H4] H5] H6] H7] H8].
+  assert (Hp : forall x y, piece_eqb x y = true -> x = y) by (intros x y E; apply piece_eqb_eq; exact E).
+  assert (Hn : forall x y, N.eqb x y = true -> x = y) by (intros x y E; apply N.eqb_eq; exact E).
+  assert (Hb : forall x y, Bool.eqb x y = true -> x = y) by (intros x y E; apply Bool.eqb_prop; exact E).
+  rewrite (opt_eqb_eq _ _ Hp _ _ H1), (opt_eqb_eq _ _ Hn _ _ H2), (opt_eqb_eq _ _ Hn _ _ H3),
+          (opt_eqb_eq _ _ Hn _ _ H4), (opt_eqb_eq _ _ Hn _ _ H5), (opt_eqb_eq _ _ Hp _ _ H6),
+          (opt_eqb_eq _ _ Hb _ _ H7), (opt_eqb_eq _ _ Hb _ _ H8). reflexivity.
+Qed.
+
+Definition coord_check (mv : move) : bool :=
+  match uci_move_query (coord_text mv) with Ok q => mquery_eqb q (query_of mv) | _ => false end.
+
+Definition all_coord_moves : list move :=
+  flat_map (fun f => flat_map (fun t => map (fun pr => mkMove f t pr) promo_options) all_squares) all_squares.
+
+(* 64 * 64 * 5 token parses *)
+Lemma coord_check_all : forallb coord_check all_coord_moves = true.
+Proof. vm_compute. reflexivity. Qed.
+
+Theorem uci_move_query_coord : forall mv, mv_from mv < 64 -> mv_to mv < 64 -> In (mv_promo mv) promo_options ->
+  uci_move_query (coord_text mv) = Ok (query_of mv).
+Proof.
+  intros [f t pr] Hf Ht Hpr. cbn [mv_from mv_to mv_promo] in *.
+  assert (Hin : In (mkMove f t pr) all_coord_moves).
+  { unfold all_coord_moves. apply in_flat_map. exists f. split; [apply all_squares_In; exact Hf|].
+    apply in_flat_map. exists t. split; [apply all_squares_In; exact Ht|].
+    apply in_map_iff. exists pr. split; [reflexivity | exact Hpr]. }
+  pose proof (proj1 (forallb_forall _ _) coord_check_all _ Hin) as H. unfold coord_check in H.
+  destruct (uci_move_query (coord_text (mkMove f t pr))) as [q| |]; try discriminate H.
+  apply mquery_eqb_eq in H. rewrite H. reflexivity.
+Qed.
+
+Lemma plays_coords : forall s mvs s', LegalPos s -> plays s mvs s' ->
+  Forall2 (fun t mv => uci_move_query t = Ok (query_of mv)) (map coord_text mvs) mvs.
+Proof.
+  intros s mvs s' HL Hp. induction Hp as [s | s mv s1 mvs s2 Hl Ht Ha Hp IH]; cbn [map]; constructor.
+  - pose proof (legal_in_moves s mv HL Hl Ht) as Hin. apply legal_moves_In in Hin.
+    destruct Hin as (Hf & _ & Hpr & _). exact (uci_move_query_coord mv Hf Ht Hpr).
+  - exact (IH (legal_pos_preserved s mv s1 HL Hl Ht Ha)).
+Qed.
+
+(* the text the engine prints for a generated move is read back as that move *)
+Theorem lan_round_trip : forall s m n, LegalPos s -> In (m, n) (gen_legal s) ->
+  uci_move_query (lan_write m) = Ok (query_of (absm m)) /\ resolve s [query_of (absm m)] = ROk n.
+Proof.
+  intros s m n HL Hin. destruct (gen_legal_props s m n HL Hin) as (Ha & _ & _ & Hl & Hm).
+  split.
+  - rewrite lan_write_coord. pose proof Hl as Hl'. apply legal_moves_In in Hl'. destruct Hl' as (Hf & Ht & Hpr & _).
+    exact (uci_move_query_coord _ Hf Ht Hpr).
+  - destruct (resolve_move s (absm m) HL Hl) as [s' (Ha' & Hr & _)]. rewrite <- Hm, Ha in Ha'.
+    injection Ha' as <-. exact Hr.
+Qed.
+
+(* C07: position startpos moves <coordinate texts of a legal line> *)
+Theorem position_startpos_coord : forall start in_book s line mvs p',
+  LegalPos start -> tokens line = t_position :: t_startpos :: t_moves :: map coord_text mvs ->
+  plays start mvs p' ->
+  Uci.step start in_book s line = (mkSession p' None (s_artifact (fst (collect s))), snd (collect s), true) /\
+  LegalPos p'.
+Proof.
+  intros start in_book s line mvs p' HL H Hp.
+  exact (position_startpos start in_book s line _ mvs p' HL H (plays_coords start mvs p' HL Hp) Hp).
+Qed.
+
+(* C18: the first search after ucinewgame starts without an artifact; a search started after an earlier
+   search was collected (no ucinewgame in between) receives that search's artifact *)
+Theorem go_after_newgame : forall start in_book p line (args : list text),
+  tokens line = t_go :: args -> in_book p = false ->
+  exists d mt o2, forallb quiet o2 = true /\
+    Uci.step start in_book (Uci.fresh p) line =
+    (mkSession p (Some (p, d, mt)) None, o2 ++ [OSearchStarted p false], true).
+Proof.
+  intros start in_book p line args H Hb.
+  destruct (step_go start in_book (Uci.fresh p) line args H) as [d [mt [o2 [Hq E]]]].
+  exists d, mt, o2. split; [exact Hq|]. rewrite E. cbn [Uci.fresh s_pos]. rewrite Hb. reflexivity.
+Qed.
+
+Theorem go_after_collected : forall start in_book s line (args : list text) p0,
+  tokens line = t_go :: args -> in_book (s_pos s) = false -> rpos s = Some p0 ->
+  exists d mt o2 roots, forallb quiet o2 = true /\
+    Uci.step start in_book s line =
+    (mkSession (s_pos s) (Some (s_pos s, d, mt)) (Some (mkArt (p0 :: roots))),
+     OCollected p0 :: o2 ++ [OSearchStarted (s_pos s) true], true).
+Proof.
+  intros start in_book s line args p0 H Hb Hr.
+  destruct (step_go start in_book s line args H) as [d [mt [o2 [Hq E]]]].
+  exists d, mt, o2, (match s_artifact s with Some a => art_roots a | None => [] end). split; [exact Hq|].
+  rewrite E, Hb, collect_artifact, collect_out. unfold collected_outputs. rewrite Hr. reflexivity.
+Qed.
